@@ -15,10 +15,8 @@ func FormatPacketDsl(dsl string) (string, error) {
 		return "", fmt.Errorf("could not create parser: %v", err)
 	}
 	listener := NewSyntaxErrorListener()
-	parser.RemoveErrorListeners()
-	parser.AddErrorListener(listener)
 	// parese the file
-	tree := parser.Packet()
+	tree := parseWholeInput(parser, stream, listener)
 	if listener.HasErrors() {
 		return dsl, fmt.Errorf("syntax errors found: %v", listener.Errors)
 	}
